@@ -50,28 +50,51 @@ class Span(Family):
         p, U, u = c["p"], c["U"], c["u"]
         n = len(U) - p - 1
         return call(lambda: [helpers.find_span_linear(p, U, n, u), helpers.find_span_binsearch(p, U, n, u),
-                             helpers.find_multiplicity(u, U), helpers.find_spans(p, U, n, [u, U[p]])])
+                             helpers.find_multiplicity(u, U), helpers.find_spans(p, U, n, [u, U[p]]),
+                             helpers.find_spans(p, U, n, self.plist(c))])
+
+    @staticmethod
+    def plist(c):
+        """a sorted parameter list as evaluate_list / evalpts hand it to find_spans: for every distinct knot span of the domain its
+        midpoint followed by its right end knot (so each knot is preceded by a parameter of the span to its left), then u"""
+        p, U = c["p"], c["U"]
+        n = len(U) - p - 1
+        ds = sorted(set(U[p:n + 1]))
+        out = [ds[0]]
+        for a, b in zip(ds, ds[1:]):
+            out += [a + (b - a) * 0.5, b]
+        return out + [c["u"]]
 
     def coq(self, c, out):
         if "ok" not in out:
             return None
         p, U, u = c["p"], c["U"], c["u"]
         n = len(U) - p - 1
-        lin, bn, mult, spans = out["ok"]
-        return ("(andb (andb (Nat.eqb (find_span_linear Qops %s %s %s %s) %s) "
+        lin, bn, mult, spans, spl = out["ok"]
+        pl = self.plist(c)
+        if len(spl) != len(pl):
+            return "false"
+        lst = "(forallb (fun us => Nat.eqb (find_span_linear Qops %s %s %s (fst us)) (snd us)) %s)" % (
+            G.n(p), G.ql(U), G.n(n), "[" + "; ".join("(%s, %s)" % (G.Q(x), G.n(k)) for x, k in zip(pl, spl)) + "]")
+        rest = ("(andb (andb (Nat.eqb (find_span_linear Qops %s %s %s %s) %s) "
                 "(opt_cmp Nat.eqb (find_span_binsearch Qops %s %s %s %s %s) (Some %s))) "
                 "(andb (Nat.eqb (find_multiplicity Qops %s %s %s) %s) (Nat.eqb (find_span_linear Qops %s %s %s %s) %s)))") % (
             G.n(p), G.ql(U), G.n(n), G.Q(u), G.n(lin),
             G.Q(TOL5), G.n(p), G.ql(U), G.n(n), G.Q(u), G.n(bn),
             G.Q(TOL8), G.Q(u), G.ql(U), G.n(mult), G.n(p), G.ql(U), G.n(n), G.Q(U[p]), G.n(spans[1]))
+        return "(andb " + lst + " " + rest + ")"
 
     def oracle(self, c, out):
         if "ok" not in out:
             return "span: search failed on a valid input: %s" % (out,)
         p, U, u = c["p"], gc.fr(c["U"]), F(c["u"])
         n = len(U) - p - 1
-        lin, bn, mult, spans = out["ok"]
+        lin, bn, mult, spans, spl = out["ok"]
         k = gc.exact_span(U, p, n, u)
+        pl = self.plist(c)
+        exp = [gc.exact_span(U, p, n, F(x)) for x in pl]
+        if list(spl) != exp:
+            return "find_spans-list: for the sorted parameters %s returned %s, the spans containing them are %s" % (pl, spl, exp)
         if lin != k:
             return "span-linear: returned %s, the non-empty half-open interval containing u is %s" % (lin, k)
         if bn != k:
@@ -292,6 +315,14 @@ class KnotVec(Family):
                 return "generate-clamped: end multiplicities are not degree+1: %s" % U
             if not knotvector.check(p, U, n):
                 return "generate-check: generated knot vector fails check()"
+            if not c["clamped"]:
+                m = p + n
+                if not gc.closel(U, [F(i, m) for i in range(m + 1)]):
+                    return "generate-unclamped: clamped=False must give the uniform knot vector i/%d without repeated end knots: %s" % (m, U)
+            else:
+                seg = n - p
+                if not gc.closel(U[p:n + 1], [F(i, seg) for i in range(seg + 1)]):
+                    return "generate-uniform: interior knots of the clamped vector are not equally spaced: %s" % (U,)
             return None
         if c["op"] == "normalize":
             if "ok" not in out:
